@@ -1152,7 +1152,10 @@ func suiteSession(h *H) {
 					if n.kind != 'f' {
 						continue
 					}
-					ex := excludedBy(rules, p)
+					// the rules see the name the entry has in the transfer: below the source directory's own name
+					// ("src/…") when the source was given without a trailing slash — a rule that names "src" then
+					// leaves out the whole transfer
+					ex := excludedBy(rules, prefix+p)
 					got, ok := after[prefix+p]
 					was, had := before[prefix+p]
 					if ex {
@@ -1183,7 +1186,7 @@ func suiteSession(h *H) {
 				}
 				if links && v == "" {
 					for p, n := range src {
-						if n.kind == 'l' && !excludedBy(rules, p) {
+						if n.kind == 'l' && !excludedBy(rules, prefix+p) {
 							if got, ok := after[prefix+p]; !ok || got.kind != 'l' || got.target != n.target {
 								v = fmt.Sprintf("FAIL[C11] -l: symlink %q not reproduced", p)
 							}
